@@ -51,6 +51,7 @@ Act(p, lb, c) ==
     [] lb = "r.runlock" -> RcvRUnlock
     [] lb = "r.exit"    -> RcvExit
     [] p = "env" /\ lb = "resp" -> EnvResp(CHOOSE m \in 1..NQ : ToString(m) = c)
+    [] p = "env" /\ lb = "respbad" -> EnvRespBad(CHOOSE m \in 1..NQ : ToString(m) = c)
     [] p = "env" /\ lb = "err" /\ c = "broken" -> EnvBrokenRecv
     [] p = "env" /\ lb = "err" -> EnvRecvErr
     [] p = "env" /\ lb = "eof" -> EnvEOF
